@@ -211,6 +211,9 @@ def run(res, tier):
     mirror_pair("lsn", {"psinorm_pf_lower": 0.96})
     mirror_pair("cdn", {"ny_inner_lower_divertor": 3, "ny_inner_upper_divertor": 4})
     mirror_pair("ldn", {})
+    # non-orthogonal, radial segments of different widths: the spacing weights depend on the radial index relative to the separatrix and on which
+    # end of a region (lower / upper, exchanged by the reflection) is being weighted
+    mirror_pair("lsn", {"orthogonal": False, "nx_core": 3, "nx_pf": 3, "nx_sol": 2}, wall=[(1.2, -0.5), (1.2, 0.5), (1.8, 0.5), (1.8, -0.5)])
     if tier == "thorough":
         mirror_pair("usn", {"psinorm_pf_upper": 0.93, "ny_outer_upper_divertor": 5})
         mirror_pair("udn", {"psinorm_pf_lower": 0.95})
